@@ -352,7 +352,7 @@ class Check:
 
     def tie_broken(self, what):
         self.broken.append(what)
-        self.note("TIE BROKEN: %s" % what)
+        self.note("TIE BROKEN: %s" % (what if len(what) < 1500 else what[:1500] + " ..."))
 
     def violation(self, signature, replay_text):
         """A monitor failed on the real code.  Matched against the known findings first."""
